@@ -26,9 +26,11 @@ REGISTRY = {
     },
     "C03": {
         "engine": "engine_deser",
-        "theorems": [(A + "NoCrashThm", "Api.C03_no_crash"), (A + "NoCrashThm", "Api.no_crash"), (A + "NoCrashThm", "Api.C03_crash_counterexamples")],
-        "partial": "no-crash proved in strict mode for JSON data on Ty.acc without uniqueItems; coercion, non-JSON objects and purity (input not modified) "
-                   "are decided by the correspondence / harness only",
+        "theorems": [(A + "NoCrashThm", "Api.C03_no_crash"), (A + "NoCrashThm", "Api.C03_no_crash_json"), (A + "NoCrashThm", "Api.no_crash"),
+                     (A + "NoCrashThm", "Api.jsonX_of_json"), (A + "NoCrashThm", "Api.C03_crash_counterexamples")],
+        "partial": "no-crash proved in strict mode on Ty.acc without uniqueItems for every datum of Py.jsonX: JSON containers with string keys whose leaves may be "
+                   "any object that is not an instance of the JSON classes (tuples, bytes, ...); coercion, non-string keys, JSON-class subclasses and purity "
+                   "(input not modified) are decided by the correspondence / harness only",
         "assumptions": MODEL_ASSUMPTIONS + ["the model is a pure function: 'never modifies the input' is a harness test, not a theorem"],
     },
     "C08": {
